@@ -1,11 +1,13 @@
 import Driver.Util
 import Driver.C19
 import Driver.C12
+import Driver.C11
 
 def dispatch (line : String) : String :=
   match Driver.toks line with
   | "C19" :: r => Driver.C19.handle r
   | "C12" :: r => Driver.C12.handle r
+  | "C11" :: r => Driver.C11.handle r
   | _ => "bad-request"
 
 partial def loop (h : IO.FS.Stream) (out : IO.FS.Stream) : IO Unit := do
